@@ -23,7 +23,15 @@ type litmus struct {
 }
 
 func outcomes(l litmus) (map[string]int, int) {
-	res := engine.RunDFS(engine.DFSConfig{Name: l.Name, Bound: -1, MaxSteps: 2000, MaxViolations: 1 << 30,
+	return outcomesWith(l, false)
+}
+
+func outcomesWith(l litmus, por bool) (map[string]int, int) {
+	run := engine.RunDFS
+	if por {
+		run = engine.RunPORDFS
+	}
+	res := run(engine.DFSConfig{Name: l.Name, Bound: -1, MaxSteps: 2000, MaxViolations: 1 << 30,
 		Body: func() any { return l.Body() },
 		Outcome: func(x *vrt.Execution, ob any) string {
 			if x.Failure != "" {
@@ -41,9 +49,10 @@ func outcomes(l litmus) (map[string]int, int) {
 }
 
 func programs() []litmus {
-	return []litmus{
+	return append(independentPrograms(), []litmus{
 		{"unprotected increment loses updates, mutex does not", func() func() string {
 			var m vsync.Mutex
+			vrt.Register(&m)
 			a, b := 0, 0
 			for i := 0; i < 2; i++ {
 				vrt.Go(func() {
@@ -61,12 +70,14 @@ func programs() []litmus {
 		}, []string{"racy=1 locked=2", "racy=2 locked=2"}},
 		{"lock order inversion deadlocks in some schedules", func() func() string {
 			var m1, m2 vsync.Mutex
+			vrt.Register(&m1, &m2)
 			vrt.Go(func() { m1.Lock(); m2.Lock(); m2.Unlock(); m1.Unlock() })
 			vrt.Go(func() { m2.Lock(); m1.Lock(); m1.Unlock(); m2.Unlock() })
 			return func() string { return "done" }
 		}, []string{"deadlock", "done"}},
 		{"RWMutex: a pending writer blocks new readers (writer preference)", func() func() string {
 			var rw vsync.RWMutex
+			vrt.Register(&rw)
 			var order []string
 			rw.RLock() // main holds a read lock
 			w := false
@@ -82,6 +93,7 @@ func programs() []litmus {
 		}, []string{"R(sees-writer-done=false),W", "W,R(sees-writer-done=true)"}},
 		{"RWMutex: readers queued behind a writer are all admitted at Unlock, before the next writer", func() func() string {
 			var rw vsync.RWMutex
+			vrt.Register(&rw)
 			var order []string
 			rw.Lock()
 			for i := 0; i < 2; i++ {
@@ -98,6 +110,7 @@ func programs() []litmus {
 		}, []string{"R,R,W2"}},
 		{"unbuffered channel: rendezvous, close gives (zero,false), send on closed panics", func() func() string {
 			c := vchan.Make[int](0)
+			vrt.Register(c)
 			var got []string
 			vrt.Go(func() { vchan.Send(c, 7) })
 			vrt.Go(func() {
@@ -111,6 +124,7 @@ func programs() []litmus {
 		}, []string{"7/true,0/false", "0/false,0/false|panic", "panic:send on closed channel"}},
 		{"select with two ready cases takes either; default only when none is ready", func() func() string {
 			a, b := vchan.Make[int](1), vchan.Make[int](1)
+			vrt.Register(a, b)
 			vchan.Send(a, 1)
 			vchan.Send(b, 2)
 			var r string
@@ -131,6 +145,7 @@ func programs() []litmus {
 		}, []string{"a+default-on-empty", "b+default-on-empty"}},
 		{"Once runs f once and late callers wait for it", func() func() string {
 			var o vsync.Once
+			vrt.Register(&o)
 			n, seen := 0, []int{}
 			for i := 0; i < 2; i++ {
 				vrt.Go(func() {
@@ -144,6 +159,7 @@ func programs() []litmus {
 			p, cancel := vcontext.WithCancel(vcontext.Background())
 			ch, _ := vcontext.WithCancel(p)
 			data := vchan.Make[int](0)
+			vrt.Register(p, ch, data)
 			var r string
 			vrt.Go(func() {
 				switch vchan.Select(false, vchan.RecvCase(ch.Done(), nil, nil), vchan.RecvCase(data, nil, nil)) {
@@ -156,8 +172,62 @@ func programs() []litmus {
 			vrt.Go(func() { cancel() })
 			return func() string { return r }
 		}, []string{"done err=context canceled"}},
+	}...)
+}
+
+// independentPrograms have threads working on disjoint objects plus one
+// shared one: the reduction must prune there without losing an outcome.
+func independentPrograms() []litmus {
+	return []litmus{
+		{"three threads on private mutexes, then one shared counter under a shared mutex", func() func() string {
+			var priv [3]vsync.Mutex
+			var shared vsync.Mutex
+			vrt.Register(&priv[0], &priv[1], &priv[2], &shared)
+			order := ""
+			for i := 0; i < 3; i++ {
+				i := i
+				vrt.Go(func() {
+					priv[i].Lock()
+					priv[i].Unlock()
+					priv[i].Lock()
+					priv[i].Unlock()
+					shared.Lock()
+					order += fmt.Sprint(i)
+					shared.Unlock()
+				})
+			}
+			return func() string { return order }
+		}, []string{"012", "021", "102", "120", "201", "210"}},
+		{"producer/consumer over a buffered channel next to an unrelated mutex user", func() func() string {
+			c := vchan.Make[int](1)
+			var m vsync.Mutex
+			vrt.Register(c, &m)
+			sum, n := 0, 0
+			vrt.Go(func() { vchan.Send(c, 1); vchan.Send(c, 2); vchan.Close(c) })
+			vrt.Go(func() {
+				for {
+					v, ok := vchan.Recv2(c)
+					if !ok {
+						break
+					}
+					sum += v
+				}
+			})
+			vrt.Go(func() {
+				m.Lock()
+				n++
+				m.Unlock()
+				m.Lock()
+				n++
+				m.Unlock()
+			})
+			return func() string { return fmt.Sprintf("sum=%d n=%d", sum, n) }
+		}, []string{"sum=3 n=2"}},
 	}
 }
+
+// Reduction records, per litmus program, the size of the full and of the reduced search.
+var Reduction []string
 
 // Run executes every litmus program and returns a description of the first mismatch.
 func Run() (string, int) {
@@ -187,6 +257,24 @@ func Run() (string, int) {
 		sort.Strings(w)
 		if strings.Join(g, "|") != strings.Join(w, "|") {
 			return fmt.Sprintf("litmus %q: outcomes %v, want %v", l.Name, g, w), total
+		}
+	}
+	// the sleep-set search must reach exactly the outcomes of the full search
+	for _, l := range programs() {
+		full, nf := outcomesWith(l, false)
+		red, n := outcomesWith(l, true)
+		total += n
+		Reduction = append(Reduction, fmt.Sprintf("%s: %d executions -> %d with sleep sets", l.Name, nf, n))
+		delete(red, "(sleep-set pruned)")
+		for k := range full {
+			if _, ok := red[k]; !ok {
+				return fmt.Sprintf("litmus %q: the sleep-set search misses outcome %q of the full search (has %v)", l.Name, k, red), total
+			}
+		}
+		for k := range red {
+			if _, ok := full[k]; !ok {
+				return fmt.Sprintf("litmus %q: the sleep-set search invents outcome %q", l.Name, k), total
+			}
 		}
 	}
 	return "", total
